@@ -148,7 +148,7 @@ seq_t dtw_distance(seq_t *s1, idx_t l1,
         dtw[j] = INFINITY;
     }
     // Deal with psi-relaxation in first row
-    for (i=0; i<settings->psi_2b + 1; i++) {
+    for (i=0; i<MIN(settings->psi_2b + 1, length); i++) {
         dtw[i] = 0;
     }
     idx_t skip = 0;
@@ -285,7 +285,7 @@ seq_t dtw_distance(seq_t *s1, idx_t l1,
     // Deal with psi-relaxation in the last row
     if (settings->psi_1e != 0 || settings->psi_2e != 0) {
         if (settings->psi_2e != 0) {
-            for (i=l2 - skip - settings->psi_2e; i<l2 - skip + 1; i++) { // iterate over vci
+            for (i=MAX(0, l2 - skip - settings->psi_2e); i<l2 - skip + 1; i++) { // iterate over vci
                 if (dtw[i1*length + i] < psi_shortest) {
                     psi_shortest = dtw[i1*length + i];
                 }
@@ -386,7 +386,7 @@ seq_t dtw_distance_ndim(seq_t *s1, idx_t l1,
         dtw[j] = INFINITY;
     }
     // Deal with psi-relaxation in first row
-    for (i=0; i<settings->psi_2b + 1; i++) {
+    for (i=0; i<MIN(settings->psi_2b + 1, length); i++) {
         dtw[i] = 0;
     }
     idx_t skip = 0;
@@ -528,7 +528,7 @@ seq_t dtw_distance_ndim(seq_t *s1, idx_t l1,
     // Deal with psi-relaxation in the last row
     if (settings->psi_1e != 0 || settings->psi_2e != 0) {
         if (settings->psi_2e != 0) {
-            for (i=l2 - skip - settings->psi_2e; i<l2 - skip + 1; i++) { // iterate over vci
+            for (i=MAX(0, l2 - skip - settings->psi_2e); i<l2 - skip + 1; i++) { // iterate over vci
                 if (dtw[i1*length + i] < psi_shortest) {
                     psi_shortest = dtw[i1*length + i];
                 }
@@ -617,7 +617,7 @@ seq_t dtw_distance_euclidean(seq_t *s1, idx_t l1,
         dtw[j] = INFINITY;
     }
     // Deal with psi-relaxation in first row
-    for (i=0; i<settings->psi_2b + 1; i++) {
+    for (i=0; i<MIN(settings->psi_2b + 1, length); i++) {
         dtw[i] = 0;
     }
     idx_t skip = 0;
@@ -754,7 +754,7 @@ seq_t dtw_distance_euclidean(seq_t *s1, idx_t l1,
     // Deal with psi-relaxation in the last row
     if (settings->psi_1e != 0 || settings->psi_2e != 0) {
         if (settings->psi_2e != 0) {
-            for (i=l2 - skip - settings->psi_2e; i<l2 - skip + 1; i++) { // iterate over vci
+            for (i=MAX(0, l2 - skip - settings->psi_2e); i<l2 - skip + 1; i++) { // iterate over vci
                 if (dtw[i1*length + i] < psi_shortest) {
                     psi_shortest = dtw[i1*length + i];
                 }
@@ -846,7 +846,7 @@ seq_t dtw_distance_ndim_euclidean(seq_t *s1, idx_t l1,
         dtw[j] = INFINITY;
     }
     // Deal with psi-relaxation in first row
-    for (i=0; i<settings->psi_2b + 1; i++) {
+    for (i=0; i<MIN(settings->psi_2b + 1, length); i++) {
         dtw[i] = 0;
     }
     idx_t skip = 0;
@@ -989,7 +989,7 @@ seq_t dtw_distance_ndim_euclidean(seq_t *s1, idx_t l1,
     // Deal with psi-relaxation in the last row
     if (settings->psi_1e != 0 || settings->psi_2e != 0) {
         if (settings->psi_2e != 0) {
-            for (i=l2 - skip - settings->psi_2e; i<l2 - skip + 1; i++) { // iterate over vci
+            for (i=MAX(0, l2 - skip - settings->psi_2e); i<l2 - skip + 1; i++) { // iterate over vci
                 if (dtw[i1*length + i] < psi_shortest) {
                     psi_shortest = dtw[i1*length + i];
                 }
